@@ -1,9 +1,11 @@
 #!/bin/sh
 # run every seeded change against the check(s) named in its meta.json ("ran": "tools/mutant.sh <name> <checks...>")
+# LANES (default 3) seeded changes are run concurrently.
 # output: /tmp/mutants_all.out   (one line per seeded change and check: DETECTED / MISSED)
 : > /tmp/mutants_all.out
-for d in /verif/seeded/*/; do
-  n=$(basename $d)
+one() {
+  n=$1
+  d=/verif/seeded/$n
   checks=$(/venv/bin/python -c "import json,sys; print(' '.join(json.load(open('$d/meta.json'))['ran'].split()[2:]))" 2>/dev/null)
   [ -z "$checks" ] && checks=$n
   out=$(/verif/tools/mutant.sh $n $checks 2>&1)
@@ -14,5 +16,18 @@ for d in /verif/seeded/*/; do
       *) echo "$n vs $c MISSED  $line" >> /tmp/mutants_all.out ;;
     esac
   done
+}
+lanes=${LANES:-3}
+i=0
+for d in /verif/seeded/*/; do
+  i=$((i+1))
+  eval "L$((i % lanes))=\"\$L$((i % lanes)) $(basename $d)\""
 done
+k=0
+while [ $k -lt $lanes ]; do
+  eval "list=\$L$k"
+  ( for n in $list; do one $n; done ) &
+  k=$((k+1))
+done
+wait
 echo DONE >> /tmp/mutants_all.out
